@@ -315,3 +315,62 @@ Theorem eam_plus_answers_needs_d8 :
      fst (fst (up_eam_plus sds upa subnrow subncol cs ea)) = [ERR nrow ncol; 1; 2]).
 Proof. exact UpscaleNoErr.eam_plus_answers_needs_d8. Qed.
 Print Assumptions eam_plus_answers_needs_d8.
+
+(* TIE BY TRANSLATION: the non-iterative upscaling kernels of upscale.py regenerated from the source on every run
+   (generated/GenUpscale.v, tools/gen_upscale.py: `while True ... break` loops become fuelled Fixpoints with the models' fuel and
+   error values, the half-cell offsets of dmm_nextidx exact doubled integers, effective_area an abstract selector) ARE the
+   models the theorems above are about -- for every network (cycles included) and every array length *)
+From PF Require Import GenUpscaleBaseEq GenUpscaleRepEq GenUpscaleWalkEq GenUpscaleIhuEq GenUpscaleErrEq.
+From PFG Require Import GenUpscale.
+Local Open Scope Z_scope.
+Theorem gen_up_subidx_2_idx_eq : forall subidx subncol cs ncol : nat,
+  gen_up_subidx_2_idx (Z.of_nat subidx) (Z.of_nat subncol) (Z.of_nat cs) (Z.of_nat ncol) = Z.of_nat (sub2idx subidx subncol cs ncol).
+Proof. exact GenUpscaleBaseEq.gen_up_subidx_2_idx_eq. Qed.
+Print Assumptions gen_up_subidx_2_idx_eq.
+Theorem gen_up_in_d8_eq : forall idx0 idx_ds ncol : nat,
+  gen_up_in_d8 (Z.of_nat idx0) (Z.of_nat idx_ds) (Z.of_nat ncol) = in_d8 idx0 idx_ds ncol.
+Proof. exact GenUpscaleBaseEq.gen_up_in_d8_eq. Qed.
+Print Assumptions gen_up_in_d8_eq.
+Theorem gen_up_cell_edge_eq : forall subidx subncol cs : nat,
+  gen_up_cell_edge (Z.of_nat subidx) (Z.of_nat subncol) (Z.of_nat cs) = cell_edge subidx subncol cs.
+Proof. exact GenUpscaleBaseEq.gen_up_cell_edge_eq. Qed.
+Print Assumptions gen_up_cell_edge_eq.
+Theorem gen_up_dmm_exitcell_eq : forall (sds : list nat) (upa : list Z) (subnrow : Z) (subncol cs nrow ncol : nat),
+  gen_up_dmm_exitcell sds upa (subnrow, Z.of_nat subncol) (Z.of_nat nrow, Z.of_nat ncol) (Z.of_nat cs) =
+  repcell sds upa subncol cs nrow ncol (fun s => cell_edge s subncol cs).
+Proof. exact GenUpscaleRepEq.gen_up_dmm_exitcell_eq. Qed.
+Print Assumptions gen_up_dmm_exitcell_eq.
+Theorem gen_up_eam_repcell_eq : forall (sds : list nat) (upa : list Z) (subnrow : Z) (subncol cs nrow ncol : nat) (ea : nat -> bool),
+  gen_up_eam_repcell sds upa (subnrow, Z.of_nat subncol) (Z.of_nat nrow, Z.of_nat ncol) (Z.of_nat cs) ea =
+  repcell sds upa subncol cs nrow ncol ea.
+Proof. exact GenUpscaleRepEq.gen_up_eam_repcell_eq. Qed.
+Print Assumptions gen_up_eam_repcell_eq.
+Theorem gen_up_dmm_nextidx_eq : forall (sds : list nat) (subnrow : Z) (subncol cs nrow ncol : nat) (rep : list nat),
+  gen_up_dmm_nextidx rep sds (subnrow, Z.of_nat subncol) (Z.of_nat nrow, Z.of_nat ncol) (Z.of_nat cs) =
+  dmm_nextidx sds subncol cs nrow ncol rep.
+Proof. exact GenUpscaleWalkEq.gen_up_dmm_nextidx_eq. Qed.
+Print Assumptions gen_up_dmm_nextidx_eq.
+Theorem gen_up_eam_nextidx_eq : forall (sds : list nat) (subnrow : Z) (subncol cs nrow ncol : nat) (rep : list nat) (ea : list bool),
+  gen_up_eam_nextidx rep sds (subnrow, Z.of_nat subncol) (Z.of_nat nrow, Z.of_nat ncol) (Z.of_nat cs) (eaf ea) =
+  eam_nextidx sds subncol cs nrow ncol ea rep.
+Proof. exact GenUpscaleWalkEq.gen_up_eam_nextidx_eq. Qed.
+Print Assumptions gen_up_eam_nextidx_eq.
+Theorem gen_up_ihu_outlets_eq : forall (sds : list nat) (subnrow : Z) (subncol cs nrow ncol : nat) (rep : list nat) (upa : list Z),
+  gen_up_ihu_outlets rep sds upa (subnrow, Z.of_nat subncol) (Z.of_nat nrow, Z.of_nat ncol) (Z.of_nat cs) =
+  ihu_outlets sds subncol cs nrow ncol rep.
+Proof. exact GenUpscaleWalkEq.gen_up_ihu_outlets_eq. Qed.
+Print Assumptions gen_up_ihu_outlets_eq.
+Theorem gen_up_ihu_nextidx_eq : forall (sds : list nat) (subnrow : Z) (subncol cs nrow ncol : nat) (ea : list bool),
+  (length ea <= length sds)%nat -> forall out : list nat,
+  fst (gen_up_ihu_nextidx out sds (subnrow, Z.of_nat subncol) (Z.of_nat nrow, Z.of_nat ncol) (Z.of_nat cs) (eaf ea)) =
+  ihu_nextidx sds subncol cs nrow ncol ea out.
+Proof. exact GenUpscaleIhuEq.gen_up_ihu_nextidx_eq. Qed.
+Print Assumptions gen_up_ihu_nextidx_eq.
+Theorem gen_up_upscale_error_eq : forall sds out cds : list nat, length out = length cds ->
+  option_map fst (gen_up_upscale_error out cds sds) = Some (upscale_error sds out cds).
+Proof. exact GenUpscaleErrEq.gen_up_upscale_error_eq. Qed.
+Print Assumptions gen_up_upscale_error_eq.
+Theorem gen_up_upscale_error_assert : forall sds out cds : list nat, length out <> length cds ->
+  gen_up_upscale_error out cds sds = None.
+Proof. exact GenUpscaleErrEq.gen_up_upscale_error_assert. Qed.
+Print Assumptions gen_up_upscale_error_assert.
